@@ -1159,7 +1159,9 @@ META = {
                       'which request a matching reply answers', 'which side (user task / library task) runs next when callbacks of both are ready in one instant (2-way, FIFO within a side)',
                       'send returns at once / takes a symbolic time',
                       'kinds of the further application listeners of the removal / result events: sync | async without yield | async yielding (its duration is symbolic)',
-                      'position of a session loss + re-login in the history (op Z)', 'disconnect() returns at once / suspends for a symbolic time',
+                      'position of a session loss + re-login in the history (op Z)',
+                      'kinds of the application listeners of SearchRequestSentEvent; who removes the request while it is being announced '
+                      '(nobody / the first listener / another task, whose delay is symbolic) and which request', 'disconnect() returns at once / suspends for a symbolic time',
                       'Timer op script'],
     'bounds': {'quick': {'requests_per_history': '<= 5 (3 direct searches + wishlist rounds of 2)', 'ops_per_history': '<= 9',
                          'consecutive_tickets': 8, 'timer_script_ops': '<= 4 (14 scripts)', 'wishlist_task_rounds': '<= 3',
@@ -1172,7 +1174,7 @@ META = {
                 'remove_request of a request that is no longer registered (KeyError to the caller is accepted API behaviour)',
                 'a removal event after a user removal is tolerated (the statement forbids result events and errors only)',
                 'binary floating point rounding of loop.time() + timeout (the virtual clock is exact: Real while symbolic, Fraction in replays)',
-                'listeners that themselves call back into the manager',
+                'listeners that call back into the manager other than remove_request() of the request being announced',
                 'time-out settings changed while a wishlist round is still sending (the job reads them once per round)'],
     'assumptions': ['asyncio Task/Future/sleep semantics of CPython 3.12', 'time-out settings within their documented domain (>= 0, wishlist >= -1)'],
 }
